@@ -180,6 +180,91 @@ CLAIMS = {
              "Found the spurious timeout (fixed). FIFO equality over interleavings not decided.",
         technique="lock-region dataflow + paired-slice rule + edge-dominance from the wait node",
         note=""),
+    "C11": dict(
+        text="Structural decision over the whole package: a call graph (MRO-resolved, dispatch tables and the keep-alive "
+             "callback as edges) gives the transport-thread closure of Transport.run and the user closure of the public "
+             "API; each of the send sites is typed by the first field of the message it sends and checked against the "
+             "gating discipline: user-thread sends of service/auth/connection messages use the gated sender, the "
+             "transport thread never calls the gated sender and never emits such messages ungated from a handler that "
+             "can run between KEXINIT and NEWKEYS, no gated send under Channel.lock, and the gate closes under its lock "
+             "before KEXINIT and reopens only after the inbound keys are active. Violated today at the handlers' reply "
+             "sites (24 known findings keyed by function and site ordinal); any new site of the wrong kind is a fresh "
+             "violation.",
+        technique="send-site census over a resolved call graph with thread contexts + wire-layout typing + CFG dominance",
+        note="delivery of queued traffic afterwards (runtime ordering) not decided"),
+    "C13": dict(
+        text="Decided part of a liveness property: every blocking primitive reachable in transport / channel / packet / "
+             "auth_handler / buffered_pipe / proxy is enumerated (floor 17) and must be discharged as a bounded poll with "
+             "an exiting liveness test, an unbounded wait on an event the teardown closure sets and nothing clears behind "
+             "the caller's back, a condition wait in a predicate loop that teardown falsifies and wakes with notify_all, "
+             "or a stream-read loop that leaves on an empty read; the teardown side (run()'s shutdown block, "
+             "Channel._set_closed) is checked to signal each of them. Found four stuck waits (fixed).",
+        technique="wait-site enumeration over the call graph + CFG loop/dominance rules + teardown-closure who-signals",
+        note="'promptly' as a time bound and scheduler fairness not decided"),
+    "C24": dict(
+        text="Decided by lockset: every method of PosixPipe / WindowsPipe / OrPipe that reads-modifies-writes the shared "
+             "pipe state does so under one pipe-wide lock shared by both OrPipe halves, each half reads its partner's flag "
+             "inside the same critical section, and BufferedPipe initialises / sets / clears the event under the buffer "
+             "lock only when the buffer state warrants it. A non-empty common lockset is necessary for the invariant under "
+             "all interleavings; found the empty lockset (lost wake-up), fixed.",
+        technique="lock-region dataflow + per-field lockset intersection over thread contexts",
+        note="select() semantics of the OS trusted"),
+    "C29": dict(
+        text="Partial (the 'fail loudly' half): every write status is examined (the registration sink of each CMD_WRITE "
+             "and the drain in _close are the same object - violated today by pipelined writes, a known finding), "
+             "_convert_status returns normally only for SFTP_OK, unpipelined writes/reads raise on a wrong reply type, "
+             "saved prefetch errors are re-raised inside the wait loop, the transfer loop writes every chunk it read, "
+             "stops only on an empty read, returns the sum of the chunk lengths, and put/get compare sizes after the "
+             "remote file is closed. Byte-exactness of a transfer is not decided.",
+        technique="value-origin of request numbers / sinks + CFG dominance + loop-progress rule",
+        note="known finding keyed by rule:function"),
+    "C30": dict(
+        text="Structural decision. Server: on every normal path of SFTPServer._process (helpers verified bottom-up) "
+             "exactly one response is emitted and it is the last effectful call; every response carries the request's own "
+             "id; the packet type is a reply command the draft allows for that request; start_subsystem's loop leaves only "
+             "when reading fails. Client: a request issued with the discarding sink must be awaited in the same function "
+             "before control returns to the application (pipelined writes and listdir_iter violate this: known findings). "
+             "Found FSETSTAT answering with packet type 5 and the check-file loop (fixed).",
+        technique="path counting on the CFG (0/1/many responses) + wire-layout extraction + constant folding of the command tables",
+        note="SFTPServerInterface callbacks return codes or objects as documented"),
+    "C31": dict(
+        text="Structural decision: in SFTPServer.set_file_attr each of chmod/chown/utime/truncate runs under a test of "
+             "exactly its flag with exactly the matching attribute fields in the right order; the size arm uses a "
+             "non-truncating open mode; each client-side chmod/chown/utime/truncate sets exactly the matching fields and "
+             "sends SETSTAT/FSETSTAT with the adjusted path / handle; the server arms hand them to chattr. Found the "
+             "'w+' open that destroyed content (fixed).",
+        technique="flag-pruned CFG dominance + argument/field table comparison + wire-layout extraction",
+        note="OS call semantics trusted; attributes arrive as sent (C33)"),
+    "C32": dict(
+        text="Partial: the block walk of SFTPServer._check_file - cursor and per-block counter advance by exactly the "
+             "length read, an empty read leaves the loops, one hash object and one digest per block, a read never exceeds "
+             "what is left of the block, the range is clamped to end of file, block sizes below 256 refused, request and "
+             "reply layouts agree between SFTPFile.check and the server. Found three defects in that walk (fixed). Digest "
+             "values are not decided.",
+        technique="cursor-agreement / loop-progress rules on the CFG + bound normaliser + wire-layout extraction",
+        note="SFTPHandle.read returns at most n bytes from offset"),
+    "C33": dict(
+        text="Structural decision by writer/reader agreement between SFTPAttributes._pack and _unpack: same leading flags "
+             "word, same groups in the same order with the same field kinds and attributes (compared in Python evaluation "
+             "order), distinct flag bits per the draft, flags recomputed from the presence of fields, fresh objects have "
+             "all fields absent. Found the extended-attribute key/value swap (fixed).",
+        technique="wire-layout extraction in evaluation order on both sides + constant folding",
+        note="32/64-bit ranges of values not decided"),
+    "C34": dict(
+        text="Structural decision: every value SFTPServerInterface.canonicalize returns is os.path.normpath of a path that "
+             "is absolute on that path of the code (client path under a true isabs test, or '/' + path), nothing else "
+             "rewrites the result, and the REALPATH arm passes the client's path through it and returns its result.",
+        technique="value-origin (reaching definitions) of every return + edge dominance",
+        note="POSIX normpath of an absolute path is absolute and free of '.'/'..' (trusted)"),
+    "C35": dict(
+        text="Partial: verification is total (no catalogued exception escapes verify_ssh_sig of RSAKey / ECDSAKey / "
+             "Ed25519Key; every return is a boolean constant and True only after the library verify returned), no field "
+             "that __init__ may leave None is dereferenced unguarded in methods every key object must support, sign and "
+             "verify agree on hash table / padding / curve hash / algorithm name / r,s layout, and the object handed to "
+             "the library verify is the public half on every path. Found the Ed25519 None dereference and three "
+             "escaping exceptions (fixed). Cryptographic correctness is not decided.",
+        technique="exception-escape analysis over the call graph with a frozen catalogue + null-belief rule on the CFG + table agreement",
+        note="operations outside the catalogue are assumed total"),
     "C03": dict(
         text="Exact decision over a finite abstract domain: the framing arithmetic "
              "of Packetizer._build_packet is interpreted from the current AST for every "
